@@ -107,6 +107,7 @@ typedef struct sim_inst {
 	int yyin_set;            /* the caller gave the scanner an input stream */
 	int yyin_src;            /* source id behind that stream */
 	int extra_set;           /* created with yylex_init_extra(this instance) */
+	int n_setyyin;           /* top-level SET_YYIN ops resolved (C++: every other one is switch_streams) */
 	void *priv;
 } sim_inst;
 
@@ -145,6 +146,8 @@ void sim_wrap_done(int ret, int start);
 /* buffers */
 void sim_buf_created(void *b, int src, void *usermem, int switched);
 void sim_buf_memlen(int len);
+/* C++ switch_streams(): the current buffer was deleted and replaced by a new one on source src */
+void sim_buf_replaced(void *b, int src);
 /* %option read (-Cr): the scanner's read(2) and fileno() calls come here */
 long sim_sys_read(int fd, void *buf, size_t n);
 int sim_fileno(FILE *f);
